@@ -246,6 +246,32 @@ func genAddressPattern(r *rand.Rand) string {
 	return strings.Join(segs, ":")
 }
 
+// pdAccounts: addresses of the case's rows; address filters are mostly derived
+// from them so that filters select proper, non-empty subsets.
+var pdAccounts []string
+
+func genPatternFromAccounts(r *rand.Rand) string {
+	if len(pdAccounts) == 0 || r.Intn(4) == 0 {
+		return genAddressPattern(r)
+	}
+	segs := strings.Split(gen.Pick(r, pdAccounts), ":")
+	switch r.Intn(6) {
+	case 0, 1:
+		for i := range segs {
+			if r.Intn(2) == 0 {
+				segs[i] = ""
+			}
+		}
+		if r.Intn(2) == 0 {
+			segs[r.Intn(len(segs))] = ""
+		}
+	case 2, 3:
+		cut := r.Intn(len(segs) + 1)
+		segs = append(segs[:cut:cut], "...")
+	}
+	return strings.Join(segs, ":")
+}
+
 func genLeaf(r *rand.Rand, resource string, wild bool) any {
 	addrKey := "address"
 	if r.Intn(4) == 0 {
@@ -266,12 +292,16 @@ func genLeaf(r *rand.Rand, resource string, wild bool) any {
 		if r.Intn(8) == 0 {
 			op = "$like"
 		}
-		return mk(op, addrKey, genAddressPattern(r))
+		return mk(op, addrKey, genPatternFromAccounts(r))
 	case k < 11:
 		n := r.Intn(4)
 		vs := make([]any, n)
 		for i := range vs {
-			vs[i] = genAccountAddress(r)
+			if len(pdAccounts) > 0 && r.Intn(3) > 0 {
+				vs[i] = gen.Pick(r, pdAccounts)
+			} else {
+				vs[i] = genAccountAddress(r)
+			}
 		}
 		return mk("$in", addrKey, vs)
 	case k < 14:
@@ -284,7 +314,8 @@ func genLeaf(r *rand.Rand, resource string, wild bool) any {
 		if resource == "aggregated" && r.Intn(3) > 0 {
 			return mk("$match", "metadata["+gen.Pick(r, pdMetaKeys)+"]", gen.Pick(r, pdMetaVals))
 		}
-		return mk(gen.Pick(r, []string{"$match", "$lt", "$lte", "$gt", "$gte"}), "balance["+gen.Pick(r, pdAssets)+"]",
+		// $exists passes validation on a map-typed field; the volumes ResolveFilter refuses it
+		return mk(gen.Pick(r, []string{"$match", "$lt", "$lte", "$gt", "$gte", "$gte", "$lt", "$exists"}), "balance["+gen.Pick(r, pdAssets)+"]",
 			json.Number(fmt.Sprint(r.Intn(7)-3)))
 	default:
 		if resource == "aggregated" && r.Intn(3) > 0 {
@@ -295,7 +326,7 @@ func genLeaf(r *rand.Rand, resource string, wild bool) any {
 }
 
 func genFilter(r *rand.Rand, resource string, depth int, wild bool) any {
-	if depth == 0 || r.Intn(3) == 0 {
+	if depth == 0 || r.Intn(4) == 0 {
 		return genLeaf(r, resource, wild)
 	}
 	switch r.Intn(5) {
@@ -344,9 +375,16 @@ func genPdRows(r *rand.Rand) []pdRow {
 func genPushdownIn(c *gen.Ctx) pdIn {
 	r := c.R
 	in := pdIn{Resource: gen.Pick(r, []string{"volumes", "volumes", "aggregated"}), PIT: r.Intn(3) == 0, Rows: genPdRows(r)}
-	depth := r.Intn(4)
+	pdAccounts = pdAccounts[:0]
+	for _, row := range in.Rows {
+		pdAccounts = append(pdAccounts, row.Address)
+	}
+	depth := 1 + r.Intn(3)
 	if r.Intn(4) == 0 {
 		depth = 4 + r.Intn(3)
+	}
+	if r.Intn(10) == 0 {
+		depth = 0
 	}
 	switch r.Intn(40) {
 	case 0:
